@@ -39,6 +39,8 @@ func conformingValue(ty string, v int) Expr {
 		return pick(L("ob"), L("oe"))
 	case TObject:
 		return L("ob")
+	case TListObjOpt:
+		return pick(L("lo"), SampleOf(TyString(Ty(ty).WithoutOptionalAttributesDeep())))
 	case TDynamic:
 		return pick(L("s"), L("n"))
 	}
